@@ -62,6 +62,30 @@ for k, v in EXTRA9.items():
     if k in P:
         P[k]["text"] += v
 
+# round 10 (DESIGN.md 8.6)
+EXTRA10 = {
+ "C01": " The routing decision function (R03.1) is an obligation here too: an admitted record is not swallowed by an emptied per-level list.",
+ "C02": " The severity handed to the sink is the record's own (R02.3).",
+ "C03": " The remove family compares the member itself with the argument outside the wrapper test (R03.5).",
+ "C04": " No dotted-key site is feasible in JSON mode (R04.6); gate and emission levels agree (R01.1/R01.2/R01.5) and the log/slog conversion keeps key and value per kind (R15.3) are obligations here.",
+ "C05": " The two-digit byte escape is written only for runes <= 0x7f on every way into its block (R05.3); the pooled context comes from the constructor (R05.9); R01.1/R01.2/R01.5 and R15.3 are obligations here.",
+ "C06": " A loop over the lines of a split text visits every line (R06.4); the SGR automaton is also run with the testing/debug-only branches (R06.1).",
+ "C07": " R10.2 (With-forms configure the child, WithContextKeys included) and the pooled-context constructor rule (R07.4) are obligations here.",
+ "C08": " What is put back into the attribute pool is what was taken from it (R08.3); R13.2 is an obligation here too.",
+ "C10": " The asserted name reaches the registry key only where it was tested non-empty (R10.9); every Opt closure configures its own parameter (R10.10).",
+ "C11": " R10.9 and the JSON raw-emission classes (R04.2: MarshalText output is not raw JSON) are obligations here.",
+ "C12": " R03.3 (each setter stores into the list it names) is an obligation here too.",
+ "C13": " Fixed-size tables on the failure path are indexed below their length (R13.3); R02.3 is an obligation here too.",
+ "C14": " R18.2 (file relative to the working directory) and R10.3 (a new logger starts with skip 0) are obligations here.",
+ "C15": " The receiver's fields precede the given ones (R15.4); each kind arm reads with its own accessor (R15.3); R02.3 and R16.3 are obligations here.",
+ "C16": " R10.3 (options applied at every position) is an obligation here too.",
+ "C17": " UnmarshalText reports success only after it stored the parsed level (R17.2).",
+ "C18": " SafetyFiles never returns its argument list (R18.1).",
+}
+for k, v in EXTRA10.items():
+    if k in P:
+        P[k]["text"] += v
+
 checks, na = [], []
 ids = [json.loads(l)["id"] for l in open(os.path.join(V, "properties.jsonl"))]
 for pid in ids:
